@@ -447,7 +447,7 @@ PROBES = {"D15": [("remover", _D15_PROBE)]}
 SUBS = [
     Sub("remover", check, strategy=_cases, quick=1500, thorough=40000, shards=16,
         floors={"nt": 0.3, "ns>=2": 0.343, "collinear": 0.05, "constant_col": 0.05, "rank_deficient": 0.1,
-                "full_rank": 0.224, "dataframe": 0.114, "alpha_interior": 0.209, "alpha_end": 0.1, "interleaved": 0.126}),
+                "full_rank": 0.224, "dataframe": 0.1, "alpha_interior": 0.209, "alpha_end": 0.1, "interleaved": 0.126}),
     Sub("column_scales", check_scales, strategy=_scale_cases, quick=300, thorough=6000, shards=8, max_skip_frac=0.6,
         floors={"scale_ratio>=1e6": 0.05}),
 ]
